@@ -285,6 +285,41 @@ fn fs_line(line: &str) -> String {
     })
 }
 
+/// terminal::get_cols with fd 0 replaced for the call: "<n>" = a pty whose window size says n columns, "fail" = /dev/null
+fn cols_line(line: &str) -> String {
+    let line = line.trim().to_string();
+    guarded(move || unsafe {
+        let saved = libc::dup(0);
+        let (mut master, mut slave) = (-1, -1);
+        if line == "fail" {
+            let fd = libc::open(b"/dev/null\0".as_ptr() as *const libc::c_char, libc::O_RDONLY);
+            libc::dup2(fd, 0);
+            libc::close(fd);
+        } else {
+            let n: u16 = line.parse().unwrap();
+            let mut ws: libc::winsize = std::mem::zeroed();
+            ws.ws_col = n;
+            ws.ws_row = 24;
+            if libc::openpty(&mut master, &mut slave, std::ptr::null_mut(), std::ptr::null(), &ws) != 0 {
+                libc::close(saved);
+                return "nopty".to_string();
+            }
+            libc::dup2(slave, 0);
+        }
+        let r = n2::verif::terminal_get_cols();
+        libc::dup2(saved, 0);
+        libc::close(saved);
+        if master >= 0 {
+            libc::close(master);
+            libc::close(slave);
+        }
+        match r {
+            Some(c) => format!("some {} use {}", c, c),
+            None => "none use 80".to_string(),
+        }
+    })
+}
+
 /// run.rs parse_args on a real command line: this executable is started again (argv[0] and the arguments as given, cwd = a
 /// scratch directory with the subdirectories d1, d1/d2 and "with space") and reports what parse_args returned.
 /// <argv0-hex> [arg-hex ...]
@@ -692,6 +727,7 @@ fn main() {
         "cli" => cli_line,
         "dumb" => dumb_line,
         "fs" => fs_line,
+        "cols" => cols_line,
         "dedup" => dedup_line,
         "hist" => hist::hist_line,
         "db" => db_line,
